@@ -153,7 +153,35 @@ def run_sequence(C, seq):
     return S, ex, outs
 
 
+FIXED_ARITY = {'Add': 2, 'Sub': 2, 'Mul': 2, 'Div': 2, 'Mod': 2, 'Exp': 2, 'Eq': 2, 'Neq': 2, 'Gt': 2, 'Lt': 2, 'Geq': 2, 'Leq': 2, 'And': 2, 'Or': 2, 'Neg': 1, 'Not': 1,
+               'Assign': 2, 'AddAssign': 2, 'SubAssign': 2, 'MulAssign': 2, 'DivAssign': 2, 'ModAssign': 2, 'ExpAssign': 2, 'AndAssign': 2, 'OrAssign': 2,
+               'Const': 0, 'VariableIdentifierWrite': 0, 'VariableIdentifierRead': 0, 'FunctionIdentifier': 1}
+
+
+def unit_arity(u, res):
+    """second half of the argument "wrong arity => every evaluation fails": Operator::eval / eval_mut reject a wrong argument count for every
+    argument value (the first half -- every node is evaluated and its operator applied -- is the C08 step, also run by this check)"""
+    import c11
+    _, opname, shapes, mutable, timeout_ms, seed = u
+    C = ctx()
+    pr = checklib.Prover(res, timeout_ms)
+    cons, outs, holder, pre, flag = c11.run_op(C, res, opname, 'x', shapes, mutable, 'hashmap')
+    for o in outs:
+        res.nontrivial_paths += 1 if shapes else 0
+        claim = z3.BoolVal(o.kind == 'return' and o.value.variant == 1)
+        verdict, model = pr.prove('%s applied to %d arguments' % (opname, len(shapes)), o.pc, claim)
+        if verdict == 'sat':
+            res.sat.append(dict(key='operator accepts a wrong argument count', kinds='-', source='', arity=True,
+                                witness='Operator::%s(%s) with %d arguments %s -> %s' % ('eval_mut' if mutable else 'eval', opname, len(shapes), shapes,
+                                                                                         render_result(C.meta, o.value, model) if o.kind == 'return' else 'panic')))
+
+
 def unit(u, res):
+    if u[0] == 'step':
+        import c08
+        return c08.unit(u[1], res)
+    if u[0] == 'arity':
+        return unit_arity(u, res)
     seqs, timeout_ms, cvc5_rate, seed = u
     C = ctx()
     pr = checklib.Prover(res, timeout_ms, cvc5_rate, random.Random(seed))
@@ -216,6 +244,11 @@ def replay_ce(ce):
     kind sequence + slot assignment that builds with all arities right; natively we search the slot assignments of that kind
     sequence (and two contexts) for one that really builds and evaluates to Ok. Found => reproduced; none => the arity proxy was
     violated but the statement was not ('benign')."""
+    if 'operator' in ce and 'children' in ce:
+        import c08
+        return c08.replay_ce(ce)
+    if ce.get('arity'):
+        return 'not_reproduced', 'operator-level counterexample (needs a hand-built tree); see the witness'
     src = ce['source']
     kinds = ce['kinds'].split(' ')
     if ce['key'] in ('balanced-reported-unbalanced', 'unbalanced-parentheses-accepted'):
@@ -289,6 +322,21 @@ def main():
     random.Random(seed).shuffle(seqs)
     chunk = 24
     units = [(seqs[i:i + chunk], timeout_ms, cvc5_rate, seed) for i in range(0, len(seqs), chunk)]
+    # evaluation half: a node of wrong arity makes every evaluation fail = (every node is evaluated, its operator applied: C08 step) + (wrong count rejected)
+    import c08
+    sunits, maxk, _ = c08.make_units(tier, seed, PID)
+    units += [('step', s) for s in sunits]
+    eshapes = ['I', 'B', 'S1', 'T1']
+    for opname, a in FIXED_ARITY.items():
+        for k in range(0, 4):
+            if k == a:
+                continue
+            combos = list(itertools.product(eshapes, repeat=k))
+            random.Random(seed).shuffle(combos)
+            for shp in combos[:(6 if tier == 'quick' else 64)]:
+                for mutable in (False, True):
+                    units.append(('arity', opname, list(shp), mutable, timeout_ms, seed))
+    random.Random(seed).shuffle(units)
     results = checklib.run_units(checklib.safe_worker(unit), units)
     nill = sum(1 for s in seqs if not wellformed(s))
     checklib.finish(PID, results, t0=t0, replay_fn=replay_ce, exhaustive=True,
@@ -298,7 +346,7 @@ def main():
                     explanation='bounded symbolic verification: tokens_to_operator_tree executed from MIR with symbolic operator/separator tokens over the complete '
                                 'set of kind sequences within the bound; the verdict per path is z3\'s over all slot assignments',
                     assumptions=['the recogniser (40-line grammar over kinds) defines ill-formedness; `1 = 2`-style assignments to non-identifiers are well-formed for it',
-                                 'a node of wrong arity makes every evaluation fail (eager evaluation; Operator::eval arity checks are covered by C01/C03 units)',
+                                 'a node of wrong arity makes every evaluation fail: decided here too -- the C08 inductive step (every node is evaluated and its operator applied) and Operator::eval[_mut] rejecting every wrong argument count',
                                  'sequences longer than the bound are outside the claim'],
                     bounds=dict(max_tokens=N, alphabet=ALPHA, sequences=len(seqs), illformed=nill, solver_timeout_ms=timeout_ms))
 
